@@ -27,9 +27,19 @@ Configs == IF Quick THEN {x \in ConfigsAll : x.nx * x.ny * x.nz <= 4 /\ Len(x.sp
 \* meteorological formats: one configuration record per format/grid/steps/start
 MetConfigs ==
   { [fmt |-> f, spc |-> <<>>, nx |-> g[1], ny |-> g[2], nz |-> g[3], nt |-> nt,
-     year |-> st[1], jjj |-> st[2], hour |-> st[3], h24 |-> FALSE] :
-      f \in MetFmts, g \in { <<1, 1, 1>>, <<2, 1, 2>>, <<2, 2, 1>>, <<3, 2, 2>>, <<1, 2, 3>> },
+     year |-> st[1], jjj |-> st[2], hour |-> st[3], h24 |-> FALSE, hdr3 |-> TRUE, lstag |-> 0] :
+      f \in MetFmts \ {"wind"}, g \in { <<1, 1, 1>>, <<2, 1, 2>>, <<2, 2, 1>>, <<3, 2, 2>>, <<1, 2, 3>> },
       nt \in 1..3, st \in { <<1999, 365, 22>>, <<2000, 59, 23>>, <<2011, 1, 0>> } }
+  \cup
+  \* wind: the slab records carry no time stamp, so the readers tell the
+  \* records of a step apart by their sizes: a slab must not have the size of
+  \* the time record (2 or 3 words) or of the dummy record (1 word), hence
+  \* grids of at least 4 cells.  Long files (7 steps) on the smallest grid
+  \* exercise the step-count rule.
+  { [fmt |-> "wind", spc |-> <<>>, nx |-> g[1], ny |-> g[2], nz |-> g[3], nt |-> nt,
+     year |-> st[1], jjj |-> st[2], hour |-> st[3], h24 |-> FALSE, hdr3 |-> h3, lstag |-> 1] :
+      g \in { <<2, 2, 1>>, <<3, 2, 2>>, <<4, 1, 3>> }, nt \in {1, 2, 3, 7}, h3 \in BOOLEAN,
+      st \in { <<1999, 365, 22>>, <<2000, 59, 20>>, <<2011, 1, 0>> } }
 \* large files (truncation of realistic sizes): compact emission, no cut enumeration
 BigConfigs ==
   { [fmt |-> "uamiv", name |-> <<"A","V","E","R","A","G","E">>, note |-> <<"b","i","g">>, itzon |-> 0,
@@ -56,6 +66,12 @@ UamivOpen(cc, nn) ==
   ELSE IF (nn - HeaderBytes(cc)) % BlockBytes(cc) # 0 THEN [k |-> "Err", n |-> 0]   \* "Partial time output"
   ELSE IF nn = HeaderBytes(cc) THEN [k |-> "Err", n |-> 0]         \* nothing to map
   ELSE [k |-> "Steps", n |-> (nn - HeaderBytes(cc)) \div BlockBytes(cc)]
+
+\* ---- the memory-mapped wind reader's decision procedure (CamxLayout.WindOpenF)
+WindLegacyCount == IOEnv.PNC_CAMX_DEV = "wind_legacy_count"
+WindOpen(cc, nn) == WindOpenF(cc, nn, WindLegacyCount)
+WindNeverFabricates == (c.fmt = "wind") => LET o == WindOpen(c, n) IN o.k = "Steps" => o.n <= CompleteSteps(c, n)
+WindFullFileReadsAll == (c.fmt = "wind" /\ n = FileBytes(c)) => WindOpen(c, n) = [k |-> "Steps", n |-> c.nt]
 
 NeverFabricates == (c.fmt = "uamiv" /\ ~Big) => LET o == UamivOpen(c, n) IN o.k = "Steps" => o.n <= CompleteSteps(c, n)
 FullFileReadsAll == (c.fmt = "uamiv" /\ ~Big /\ n = FileBytes(c)) => UamivOpen(c, n) = [k |-> "Steps", n |-> c.nt]
